@@ -53,7 +53,7 @@ func (ms *memstore) CreateBucket(bucket string) error {
 	defer ms.mu.Unlock()
 	if ms.buckets[bucket] == nil {
 		ms.buckets[bucket] = &memBucket{
-			created: time.Now(),
+			created: timeNow(),
 			files:   btree.New(16),
 		}
 	}
@@ -94,7 +94,7 @@ func (ms *memstore) Add(bucket string, filename string, contents []byte, meta *s
 	meta.Metageneration = 1
 
 	// Cannot be overridden by caller
-	now := time.Now().UTC()
+	now := timeNow().UTC()
 	meta.Updated = now.UTC().Format(time.RFC3339Nano)
 	meta.Generation = now.UnixNano()
 	if meta.TimeCreated == "" {
